@@ -532,6 +532,8 @@ def family_O(tier):
     yield emit('parent-lit', [('class', 'P', [('x', 'Str', True)], [], []), ('class', 'Q', [], [('P', [lit_str("fixed")])], []),
                               ('def', 'o', None, ('new', 'Q', []), False), ('print', ('field', var('o'), 'x'))], [])
     # two parents
+    for pname, cname, m_lines, p_lines in inheritance_matrix():
+        yield emit('inherit-no-args', [('rawstmt', m_lines, p_lines)], ['parent:' + pname, 'child:' + cname])
     yield emit('two-parents', [('class', 'P1', [], [], [('fun', 'f1', [], 'Int', [], [('expr', I(1))])]), ('class', 'P2', [], [], [('fun', 'f2', [], 'Int', [], [('expr', I(2))])]),
                                ('class', 'Q', [], [('P1', None), ('P2', None)], [('fun', 'both', [], 'Int', [], [('expr', ('bin', '+', ('mcall', var('self'), 'f1', []), ('mcall', var('self'), 'f2', [])))])]),
                                ('def', 'o', None, ('new', 'Q', []), False), ('print', ('mcall', var('o'), 'both', [])), ('print', ('mcall', var('o'), 'f1', []))], [])
@@ -566,6 +568,33 @@ def family_O(tier):
 EXC_DECLS = [('class', 'E1', [('msg', 'Str', False)], [('Exception', [var('msg')])], []),
              ('class', 'E2', [('msg', 'Str', False)], [('E1', [var('msg')])], []),
              ('class', 'E3', [('msg', 'Str', False)], [('Exception', [var('msg')])], [])]
+
+
+def inheritance_matrix():
+    """child constructor kind x what the construction of a parent listed WITHOUT arguments does (each with its reference Python)"""
+    parents = {
+        # name: (mamba lines, python lines, what to observe on an instance `o`: (mamba expr, python expr))
+        "init-assigns-and-prints": (["class Pa", "    def count: Int := 0", "    def __init__(self) =>", "        self.count := 10", '        print("Pa ready")', "    def get(self) -> Int => self.count"],
+                                    ["class Pa:", "    def __init__(self):", "        self.count = 10", '        print("Pa ready")', "    def get(self):", "        return self.count"], ("o.get()", "o.get()")),
+        "grandparent-with-arguments": (["class Gp(def tag: Str)", "    def show(self) -> Str => self.tag", 'class Pa: Gp("mid")', "    def twice(self) -> Str => self.tag + self.tag"],
+                                       ["class Gp:", "    def __init__(self, tag):", "        self.tag = tag", "    def show(self):", "        return self.tag", "class Pa(Gp):", "    def __init__(self):", '        Gp.__init__(self, "mid")',
+                                        "    def twice(self):", "        return self.tag + self.tag"], ("o.twice()", "o.twice()")),
+        "class-argument-with-default": (["class Pa(def k: Int := 5)", "    def get(self) -> Int => self.k"],
+                                        ["class Pa:", "    def __init__(self, k=5):", "        self.k = k", "    def get(self):", "        return self.k"], ("o.get()", "o.get()")),
+    }
+    children = {
+        "no-own-constructor": (["class Ch: Pa", "    def own(self) -> Int => 1", "def o := Ch()"], ["class Ch(Pa):", "    def own(self):", "        return 1", "o = Ch()"]),
+        "class-arguments": (["class Ch(def y: Int): Pa", "    def own(self) -> Int => self.y", "def o := Ch(3)"],
+                            ["class Ch(Pa):", "    def __init__(self, y):", "        Pa.__init__(self)", "        self.y = y", "    def own(self):", "        return self.y", "o = Ch(3)"]),
+        "explicit-init": (["class Ch: Pa", "    def y: Int", "    def __init__(self, y: Int) =>", "        self.y := y", "    def own(self) -> Int => self.y", "def o := Ch(3)"],
+                          ["class Ch(Pa):", "    def __init__(self, y):", "        Pa.__init__(self)", "        self.y = y", "    def own(self):", "        return self.y", "o = Ch(3)"]),
+        "second-parent-with-arguments": (["class Ot(def w: Int)", "class Ch(def y: Int): Pa, Ot(y)", "    def own(self) -> Int => self.y + self.w", "def o := Ch(3)"],
+                                         ["class Ot:", "    def __init__(self, w):", "        self.w = w", "class Ch(Pa, Ot):", "    def __init__(self, y):", "        Pa.__init__(self)", "        Ot.__init__(self, y)", "        self.y = y",
+                                          "    def own(self):", "        return self.y + self.w", "o = Ch(3)"]),
+    }
+    for pname, (pm, pp, (om, op)) in parents.items():
+        for cname, (cm, cp) in children.items():
+            yield pname, cname, pm + cm + ["print(o.own())", "print(%s)" % om], pp + cp + ["print(o.own())", "print(%s)" % op]
 
 
 def family_H(tier):
